@@ -438,6 +438,139 @@ class Run:
         os.remove(path)
         return res
 
+    # -- C19: forced schedules (A) and linearizability of recorded histories (B) -------------------
+    def sched_replay(self, cfg, sample=None, note=""):
+        """TLC exports the schedules of RegistrySched; the harness forces them on real goroutines"""
+        import random
+        r = self.model("RegistrySched.tla", cfg, note="schedule export for direction A " + note)
+        scheds = [parse_tla_string(x) for x in tlc_prints(r["out"], "SCHEDULE")]
+        if not scheds:
+            raise Broken("no schedule exported by %s" % cfg)
+        total = len(scheds)
+        if sample and sample < total:
+            random.Random(self.seed).shuffle(scheds)
+            scheds = scheds[:sample]
+        vd = self.build()
+        inp = os.path.join(self.scratch, "sched-%s.ndjson" % cfg)
+        outp = inp + ".res"
+        open(inp, "w").write("\n".join(scheds) + "\n")
+        # several processes in parallel (each has its own registry)
+        k = min(NCPU, max(1, len(scheds) // 200))
+        parts = [scheds[i::k] for i in range(k)]
+
+        def run_part(i):
+            ip, op = "%s.%d" % (inp, i), "%s.%d" % (outp, i)
+            open(ip, "w").write("\n".join(parts[i]) + "\n")
+            p = subprocess.run([vd, "conc", "sched", "-in", ip, "-out", op], capture_output=True, text=True, timeout=3600,
+                               env=dict(os.environ, VERIF_SCHEMA=SCHEMA))
+            if p.returncode != 0:
+                raise Broken("conc sched failed: " + p.stderr[-1500:])
+            return [json.loads(l) for l in open(op)]
+
+        t0 = time.time()
+        with concurrent.futures.ThreadPoolExecutor(max_workers=k) as ex:
+            results = [x for part in ex.map(run_part, range(k)) for x in part]
+        cnt = {"ok": 0, "violation": 0, "inconclusive": 0}
+        for x in results:
+            cnt[x["verdict"]] += 1
+        self.cov["replay_runs"].append({"model": "RegistrySched.tla/" + cfg, "schedules_exported": total, "schedules_replayed": len(results),
+                                        "ok": cnt["ok"], "inconclusive": cnt["inconclusive"], "violations": cnt["violation"],
+                                        "wall_s": round(time.time() - t0, 1)})
+        self.cov["traces_validated_against_impl"] += len(results)
+        self.cov["evaluations"] += sum(len(json.loads(sc)) for sc in scheds)
+        self.cov["distinct_nontrivial"] += len(set(scheds))
+        if len(self.cov["samples"]) < 4:
+            self.cov["samples"].append({"schedule": json.loads(scheds[0])})
+        log("  replay %-24s %6d of %d schedules forced on real goroutines: ok=%d inconclusive=%d violations=%d (%.1fs)" %
+            (cfg, len(results), total, cnt["ok"], cnt["inconclusive"], cnt["violation"], time.time() - t0))
+        if cnt["inconclusive"]:
+            self.assumptions.append("%d of %d forced schedules of %s were inconclusive on this tree (a goroutine the model lets in did not reach "
+                                    "its gate); they decide nothing, the hook-free histories (B) still do" % (cnt["inconclusive"], len(results), cfg))
+        for x in results:
+            if x["verdict"] == "violation" and len(self.violations) < 5:
+                rp = self.write_replay({"kind": "schedule", "why": x["why"], "step": x["step"], "schedule": x["schedule"]})
+                self.violations.append({"what": "forced schedule: " + x["why"], "replay": rp})
+        return cnt
+
+    def lin_stress(self, histories, procs, calls, names=2, seed_off=0):
+        """hook-free stress of the real registry under the race detector; TLC searches a linearization"""
+        vd = self.build(race=True)
+        seed = self.seed + seed_off
+        path = os.path.join(self.scratch, "reg-%d-%d-%d.ndjson" % (procs, calls, seed))
+        cmd = [vd, "conc", "stress", "-seed", str(seed), "-histories", str(histories), "-procs", str(procs), "-calls", str(calls),
+               "-names", str(names), "-out", path]
+        p = subprocess.run(cmd, capture_output=True, text=True, timeout=1800, env=dict(os.environ, GORACE="halt_on_error=0 exitcode=66"))
+        if "DATA RACE" in p.stderr or p.returncode == 66:
+            rp = self.write_replay({"kind": "race", "cmd": " ".join(cmd[1:]), "report": p.stderr[:6000]})
+            self.violations.append({"what": "the race detector reported a data race in the registry stress run", "replay": rp})
+            log("  stress procs=%d calls=%d: DATA RACE reported by the race detector" % (procs, calls))
+            return
+        if p.returncode != 0:
+            raise Broken("conc stress failed: rc=%d %s" % (p.returncode, p.stderr[-1500:]))
+        self.lin_validate(path, "stress procs=%d calls=%d names=%d" % (procs, calls, names))
+
+    def lin_validate(self, path, label):
+        lines = open(path).read().splitlines()
+        # chunks at history boundaries ("reset" events)
+        chunks, cur = [], []
+        for ln in lines:
+            if '"e":"reset"' in ln and len(cur) >= 4000:
+                chunks.append(cur)
+                cur = []
+            cur.append(ln)
+        if cur:
+            chunks.append(cur)
+
+        def val(args):
+            i, ch = args
+            cp = "%s.chunk%d" % (path, i)
+            open(cp, "w").write("\n".join(ch) + "\n")
+            rejected = []
+            while True:
+                r = run_tlc("TraceRegistry.tla", "TraceRegistry.cfg", self.scratch, env={"VERIF_TRACE": cp}, workers=1, timeout=1800,
+                            tag="lin-%s-%d" % (os.path.basename(path), i))
+                if r["error"] or not r["completed"]:
+                    raise Broken("TraceRegistry failed: %s" % (r["error"] or r["out"][-1500:]))
+                hw = tlc_prints(r["out"], "HIGHWATER")
+                if not hw:
+                    raise Broken("no HIGHWATER line")
+                reached, total = [int(x) for x in hw[-1].split(",")]
+                if reached == total + 1:
+                    return rejected, r
+                # the history containing event `reached` is not linearizable: cut it out and go on
+                cur = open(cp).read().splitlines()
+                h = json.loads(cur[reached - 1])["h"]
+                bad = [l for l in cur if json.loads(l)["h"] == h]
+                rejected.append((h, reached, bad))
+                rest = [l for l in cur if json.loads(l)["h"] != h]
+                if not rest:
+                    return rejected, r
+                open(cp, "w").write("\n".join(rest) + "\n")
+
+        nhist = sum(1 for l in lines if '"e":"reset"' in l)
+        rej_all, states, gen = [], 0, 0
+        with concurrent.futures.ThreadPoolExecutor(max_workers=max(1, NCPU // 2)) as ex:
+            for rejected, r in ex.map(val, list(enumerate(chunks))):
+                rej_all += rejected
+                states += r["distinct"]
+                gen += r["generated"]
+        self.cov["states"] += states
+        self.cov["transitions"] += gen
+        self.cov["traces_validated_against_impl"] += nhist
+        self.cov["evaluations"] += len(lines)
+        overl = count_overlaps(lines)
+        self.cov["distinct_nontrivial"] += overl
+        self.cov["trace_runs"].append({"driver": "registry " + label, "histories": nhist, "events": len(lines), "histories_with_overlapping_calls": overl,
+                                       "tlc_states": states, "rejected": len(rej_all)})
+        if len(self.cov["samples"]) < 4:
+            self.cov["samples"].append({"history": [json.loads(l) for l in lines[1:9]]})
+        log("  lin   %-34s %5d histories %7d events (%d with overlapping calls) TLC states=%d -> not linearizable: %d" %
+            (label, nhist, len(lines), overl, states, len(rej_all)))
+        for h, at, bad in rej_all[:5]:
+            rp = self.write_replay({"kind": "lin-history", "rejected_at_event": at, "events": [json.loads(l) for l in bad]})
+            self.violations.append({"what": "history %d of the registry stress run has no linearization (stuck at event %d)" % (h, at), "replay": rp})
+        os.remove(path)
+
     def _nontriv_add(self, driver, st):
         self.cov["distinct_nontrivial"] += st["classes"]
 
@@ -496,6 +629,26 @@ class Run:
             "FAIL" if self.violations else "PASS", self.prop, self.tier, self.seed, self.cov["states"], self.cov["transitions"],
             self.cov["traces_validated_against_impl"], self.cov["evaluations"], time.time() - self.t0))
         return 1 if self.violations else 0
+
+
+def count_overlaps(lines):
+    """number of histories in which at least two calls overlap in real time"""
+    n, open_calls, overl, cur = 0, 0, False, None
+    for ln in lines:
+        e = json.loads(ln)
+        if e["e"] == "reset":
+            if overl:
+                n += 1
+            open_calls, overl = 0, False
+        elif e["e"] == "inv":
+            open_calls += 1
+            if open_calls > 1:
+                overl = True
+        elif e["e"] == "ret":
+            open_calls -= 1
+    if overl:
+        n += 1
+    return n
 
 
 def synth_event(nid, h, op, outcome, why):
